@@ -597,9 +597,11 @@ def setup_ctx(ctx):
 def run(ctx):
     setup_ctx(ctx)
     ctx.check_theorems()
+    if ctx.tier == "thorough":
+        ctx.coqchk(["Eupsv.Props.C13"])
     specs = corpus_specs()
     ncorpus = len(specs)
-    n = ctx.size(500, 12000)
+    n = ctx.size(400, 6000)
     for _ in range(n):
         specs.append(stackgen.gen_spec(ctx.rng))
     for s in specs[ncorpus:ncorpus + 2]:
